@@ -1060,6 +1060,9 @@ def bin_menus() -> dict:
                   ('flags', True, lambda spec: spec['ents'][0]['kvs'].append(
                       kvs('spawnflags', 'SPAWNFLAGS', 'spawnflags', '', '', lst=[[1, 'Base flag', True, []]])))]
     m['shape'] = [('clscase', False, setter(bin_ent, 'cls', 'Ent_A')),
+                  # classnames are UTF-8 in the binary tables: one more entity, named outside ASCII, placed first in its block
+                  ('cls_nonascii', False, lambda spec: spec['ents'].append(
+                      ents('aa_caf\u00e9_\u0394', 'POINT', ['_CBaseEntity_'], kvs=[kvs('nonascii_key', 'INT', 'K', '1', '')]))),
                   ('no_kv', False, setter(bin_ent, 'kvs', [])),
                   ('no_io', True, lambda spec: bin_ent(spec).update(ins=[], outs=[])),
                   ('many_kv', False, lambda spec: bin_ent(spec)['kvs'].extend(
@@ -1162,6 +1165,43 @@ def check_bin_ship(acc: core.Acc) -> None:
     for (kind, field), details in sorted(grouped.items()):
         acc.fail(kind, {'part': 'bin_ship'}, f'shipped database re-serialised: {len(details)} difference(s), first: '
                  + ' | '.join(details[:3]), scope='shipped', field=field)
+
+
+def check_returned_defs_private(acc: core.Acc) -> None:
+    """Definitions handed out by engine_def() / engine_dbase() are copies: editing one (also the objects inside it - KVDef,
+    IODef, inherited ones) is not seen by later look-ups or full loads."""
+    _, ref = shipped()
+    names = ['math_counter', 'logic_relay', 'info_target', 'func_button', 'env_beam']
+    for order in ('def_then_def', 'def_then_full', 'full_then_def'):
+        acc.evaluations += 1
+        acc.nontrivial += 1
+        case = {'part': 'private_defs', 'order': order}
+        fresh_globals()
+        try:
+            first = FGD.engine_dbase() if order == 'full_then_def' else None
+            for n in names:
+                ent = first[n] if first is not None else EntityDef.engine_def(n)
+                ent.desc = 'EDITED'
+                for mapping in (ent.keyvalues, ent.inputs, ent.outputs):
+                    for tagmap in mapping.values():
+                        for d in tagmap.values():
+                            d.desc = 'EDITED'
+                            d.name = d.name + '_x'
+                for view in (ent.inp, ent.out, ent.kv):
+                    for key in list(view):
+                        view[key].desc = 'EDITED-INHERITED'          # also objects inherited from the bases
+            later = FGD.engine_dbase() if order == 'def_then_full' else None
+            for n in names:
+                got = dump_ent(later[n] if later is not None else EntityDef.engine_def(n))
+                if got != ref[n.casefold()]:
+                    path_, a_, b_ = diff(ref[n.casefold()], got)[0]
+                    acc.fail('lazy_def_differs', case, f'order {order}: after editing an earlier result in place, {n} now reads {"/".join(map(str, path_))}: '
+                             f'{short(a_)} -> {short(b_)}', field=field_of(path_), where='shared_with_cache')
+                    break
+        except Exception as exc:  # noqa: BLE001
+            acc.fail('lazy_exception', case, f'order {order}: {exc_head(exc)}', where='private_defs')
+        finally:
+            fresh_globals()
 
 
 def check_extra_database(acc: core.Acc) -> None:
@@ -1442,6 +1482,7 @@ def shard(spec) -> core.Acc:
         for h in hists:
             run_history_then_full(acc, h, blocks)
     elif kind == 'extra_db':
+        check_returned_defs_private(acc)
         check_extra_database(acc)
         acc.sample({'part': 'extra_db'}, 1)
     elif kind == 'lazy_name':
@@ -1635,6 +1676,9 @@ def replay(case: dict) -> list:
         run_history(acc, case['hist'], lazy_blocks(), True)
     elif part == 'lazy_full':
         run_history_then_full(acc, case['hist'], lazy_blocks())
+    elif part == 'private_defs':
+        check_returned_defs_private(acc)
+        return [f for f in acc.all_failures() if f.case.get('order') == case.get('order')]
     elif part == 'extra_db':
         check_extra_database(acc)
         return [f for f in acc.all_failures() if f.case.get('order') == case.get('order')]
